@@ -986,6 +986,9 @@ class Gen:
         page_ok = not any(n["k"] == "lbox" for n in self.nodes)
         nops = nops if nops is not None else self.rng.choice([3, 5, 8, 12, 16])
         ops = self.ops(m, nops, page_ok)
+        if any(n["k"] == "lbox" for n in self.nodes):
+            # a ListBox may have entered through a later Frame part: page keys inside a ListBox are not modelled
+            ops = [["key", op[1].split()[-1]] if op[0] == "key" and op[1] in KEYS_PAGE else op for op in ops]
         return {"W": self.W, "H": self.H, "root": root, "nodes": self.nodes, "ops": ops}
 
 
